@@ -40,9 +40,9 @@ func drawOpts(rt *rapid.T) persona.Opts {
 	o.Seed = rapid.SliceOfN(rapid.Byte(), 8, 8).Draw(rt, "seed")
 	o.Country = rapid.SampledFrom([]string{"DE", "FR", "NL", "GB"}).Draw(rt, "country")
 	o.Layout = rapid.SampledFrom([]string{"TD3", "TD1", "TD2"}).Draw(rt, "layout")
-	mech := rapid.SampledFrom([]string{"CA", "CA", "CAM", "AA-RSA", "AA-ECDSA", "AA+CA"}).Draw(rt, "mechanism")
+	mech := rapid.SampledFrom([]string{"CA", "CA", "CAM", "AA-RSA", "AA-ECDSA", "AA+CA", "CAM+AA", "CAM+CA"}).Draw(rt, "mechanism")
 	o.Access = rapid.SampledFrom([]string{"BAC", "PACE+BAC", "PACE"}).Draw(rt, "access")
-	o.PaceID = rapid.SampledFrom([]int{12, 10, 13, 15, 8, 9, 11, 14, 16}).Draw(rt, "paceId")
+	o.PaceID = rapid.SampledFrom([]int{12, 10, 13, 15, 8, 9, 11, 14, 16, 17, 18}).Draw(rt, "paceId")
 	o.PaceCipher = rapid.SampledFrom([]mac.Cipher{"3DES", "AES-128", "AES-192", "AES-256"}).Draw(rt, "paceCipher")
 	switch mech {
 	case "CA":
@@ -55,6 +55,13 @@ func drawOpts(rt *rapid.T) persona.Opts {
 		o.AA = "ECDSA"
 	case "AA+CA":
 		o.AA, o.CA = rapid.SampledFrom([]string{"RSA", "ECDSA"}).Draw(rt, "aaKind"), true
+	case "CAM+AA":
+		// the reader runs Active Authentication after PACE-CAM as well: two evidences in one session
+		o.Access = "PACE-CAM"
+		o.AA = rapid.SampledFrom([]string{"RSA", "ECDSA"}).Draw(rt, "aaKind")
+	case "CAM+CA":
+		// a DG14 key is present too; Chip Authentication is skipped once PACE-CAM completed
+		o.Access, o.CA = "PACE-CAM", true
 	}
 	o.AARSABits = rapid.SampledFrom([]int{1024, 1028, 1280, 1536, 2048}).Draw(rt, "aaBits")
 	o.AATrailer = rapid.SampledFrom([]int{0xBC, 0x34CC, 0x38CC, 0x36CC, 0x35CC}).Draw(rt, "aaTrailer")
@@ -257,6 +264,67 @@ func TestOfflineMirrorsLiveAndDetectsTampering(t *testing.T) {
 		o := drawOpts(rt)
 		libSeed := rapid.SliceOfN(rapid.Byte(), 8, 8).Draw(rt, "libSeed")
 		mseed := rapid.SliceOfN(rapid.Byte(), 8, 8).Draw(rt, "mutSeed")
+		runSession(rt, o, libSeed, mseed)
+	})
+}
+
+// failer is what the session check needs from *rapid.T / *testing.T.
+type failer interface {
+	Helper()
+	Fatalf(format string, args ...any)
+	Logf(format string, args ...any)
+}
+
+// TestMechanismMatrix: one genuine session (mirror + every tamper) for every
+// standardised PACE parameter id with PACE-CAM alone and with PACE-CAM + AA,
+// for every Chip Authentication curve x cipher suite, and for AA on every
+// curve / RSA size, so that no curve or mechanism combination depends on the
+// random draw (P-521 and brainpoolP512r1 carry the longest evidence fields).
+func TestMechanismMatrix(t *testing.T) {
+	var cases []persona.Opts
+	base := func(i int) persona.Opts {
+		return persona.Opts{Seed: []byte{0xC1, 0x4A, byte(i), byte(evid.Seed()), byte(evid.Seed() >> 8), 1, 2, 3}, Country: "NL", Layout: []string{"TD3", "TD1", "TD2"}[i%3],
+			Trusted: true, Extended: true, AARSABits: 1024, AATrailer: 0xBC, AACurve: "P-256", CACurve: "P-256", CACipher: "AES-128", PaceID: 12, PaceCipher: "AES-128"}
+	}
+	camCiphers := []mac.Cipher{"AES-128", "AES-192", "AES-256"}
+	for id := 8; id <= 18; id++ {
+		o := base(len(cases))
+		o.Access, o.PaceID, o.PaceCipher = "PACE-CAM", id, camCiphers[id%3]
+		cases = append(cases, o)
+		o2 := base(len(cases))
+		o2.Access, o2.PaceID, o2.PaceCipher = "PACE-CAM", id, camCiphers[(id+1)%3]
+		o2.AA = []string{"RSA", "ECDSA"}[id%2]
+		o2.AACurve = []string{"P-256", "brainpoolP256r1", "P-384"}[id%3]
+		cases = append(cases, o2)
+	}
+	caCiphers := []mac.Cipher{"3DES", "AES-128", "AES-192", "AES-256"}
+	for i, cv := range []string{"P-192", "P-224", "P-256", "P-384", "P-521", "brainpoolP192r1", "brainpoolP224r1", "brainpoolP256r1", "brainpoolP320r1", "brainpoolP384r1", "brainpoolP512r1"} {
+		for k := 0; k < 2; k++ {
+			o := base(len(cases))
+			o.Access = []string{"BAC", "PACE", "PACE+BAC"}[(i+k)%3]
+			o.CA, o.CACurve, o.CACipher = true, cv, caCiphers[(i+2*k)%4]
+			o.CAKeyID, o.CAExplicit = k == 1, (i+k)%2 == 0
+			if k == 1 && i%2 == 0 {
+				o.AA = "RSA"
+				o.AARSABits = []int{1024, 1028, 1280, 2048}[i%4]
+			}
+			cases = append(cases, o)
+		}
+		o := base(len(cases))
+		o.Access, o.AA, o.AACurve, o.AADER = "BAC", "ECDSA", cv, i%2 == 0
+		cases = append(cases, o)
+	}
+	for i, o := range cases {
+		if !evid.MineIdx(i) {
+			continue
+		}
+		evid.Count("matrix-sessions", 1)
+		runSession(t, o, []byte{byte(i), 7, 7, 7, byte(evid.Seed()), 1, 1, 1}, []byte{9, byte(i), 9, 9, byte(evid.Seed()), 2, 2, 2})
+	}
+}
+
+func runSession(rt failer, o persona.Opts, libSeed, mseed []byte) {
+	{
 		rep := reproOf(o, libSeed)
 		p, err := persona.Build(o)
 		if err != nil {
@@ -398,7 +466,7 @@ func TestOfflineMirrorsLiveAndDetectsTampering(t *testing.T) {
 				}
 			}
 		}
-	})
+	}
 }
 
 func oidOf(dotted string) asn1.ObjectIdentifier {
@@ -417,7 +485,7 @@ func oidOf(dotted string) asn1.ObjectIdentifier {
 	return out
 }
 
-func checkTampered(rt *rapid.T, p *persona.Persona, c *document.DocumentEx, mech, fname, mname string, rep map[string]any, before, after []byte) {
+func checkTampered(rt failer, p *persona.Persona, c *document.DocumentEx, mech, fname, mname string, rep map[string]any, before, after []byte) {
 	evid.CaseFn("tamper/"+fname+"/"+mname, true, fmt.Sprintf("%s/%s/%x/%x", fname, mname, before, after), func() any {
 		return map[string]any{"mechanism": mech, "field": fname, "mutation": mname, "before": evid.Hex(before), "after": evid.Hex(after), "session": rep}
 	})
@@ -444,7 +512,7 @@ func checkTampered(rt *rapid.T, p *persona.Persona, c *document.DocumentEx, mech
 	}
 }
 
-func checkFileTampered(rt *rapid.T, p *persona.Persona, ex *document.DocumentEx, name string, mut []byte, pos int, rep map[string]any) {
+func checkFileTampered(rt failer, p *persona.Persona, ex *document.DocumentEx, name string, mut []byte, pos int, rep map[string]any) {
 	c := *ex
 	doc := c.Document // copy of the struct; replace one file by a re-parsed mutated one
 	var err error
